@@ -115,3 +115,22 @@ __CPROVER_assigns(g_dpushed, g_stored_seq)
 __CPROVER_ensures(g_dpushed == 1)                                                                          /*@ob C05.exactly-one-occurrence-stored */
 __CPROVER_ensures(g_stored_seq == (uint16_t)(next_rtc_seq ? self->event_pool.cur_seq_cnt : self->event_pool.cur_seq_cnt - 1))   /*@ob C05.sequence-number-decides-the-first-cycle-it-is-re-offered */
 ;
+
+/* ---- backmp11 compile_policy_impl<favor_runtime_speed>::is_event_deferred(sm, event): the two `if constexpr` short-cuts ("this machine
+   has deferring states" / "... that defer this event type") are type-level facts [A, symbolic]; when both hold the answer is the visitor's
+   result after the active traversal (its own units), otherwise false ---- */
+#if UNIT_IS_DEFERRED
+extern const _Bool g_needs_traversal_1, g_needs_traversal_2, g_any_active_state_defers; extern int g_visits;
+void event_deferral_visit(const fsm_t* sm, vis_t* visitor)
+__CPROVER_requires(g_visits == 0 && !visitor->m_result)                           /*@ob C05.deferral-query-starts-from-not-deferred */
+__CPROVER_requires(EV_EQ(visitor->m_event, g_evt))                                /*@ob C05,C18.deferral-query-asks-about-the-event-being-processed */
+__CPROVER_assigns(g_visits, visitor->m_result)
+__CPROVER_ensures(g_visits == 1 && (visitor->m_result != 0) == (g_any_active_state_defers != 0))
+;
+_Bool is_event_deferred(const fsm_t* sm, event_t event)
+__CPROVER_requires(__CPROVER_is_fresh(sm, sizeof(*sm)) && EV_EQ(event, g_evt) && g_visits == 0)
+__CPROVER_assigns(g_visits)                                                                                /*@ob C05.deferral-query-changes-no-machine-state */
+__CPROVER_ensures((g_needs_traversal_1 && g_needs_traversal_2) ==> (__CPROVER_return_value != 0) == (g_any_active_state_defers != 0))   /*@ob C05.deferred-iff-some-active-state-defers-the-event */
+__CPROVER_ensures(!(g_needs_traversal_1 && g_needs_traversal_2) ==> !__CPROVER_return_value)
+;
+#endif
